@@ -50,6 +50,15 @@
 (*                     (99999 where not exactly on the lattice)            *)
 (*  derive records     dcoords: coordinates of the derived grid object;    *)
 (*                     inplace, pn, pafter: the parent read again          *)
+(*  confs, prof, m     relocating calls: the configurations pushed so far  *)
+(*                     in this process history, the profile class, and the *)
+(*                     lattice refinement (unit = 1/(4m)): R must be the   *)
+(*                     minimum configured when the call is made            *)
+(*  reconfigure rec.   conf: the configuration pushed; seen: the minima    *)
+(*                     (units of 1/4) the library's config now reports for *)
+(*                     << VProfile, VProfileSmall >>                       *)
+(*  oy, ox, dyadic     project on a 2D grid: origin (units) and whether    *)
+(*                     the unit is a power of two (count judged exactly)   *)
 (*  hid, step          history records: several decorated calls on ONE     *)
 (*                     grid object; every call is judged against the       *)
 (*                     coordinates the grid was BUILT with (0 = single)    *)
@@ -139,6 +148,11 @@ Ray2DClause(r) ==
        /\ Len(r.q) >= 1
        /\ r.rid = Iota(Len(r.q))
        /\ \E k0 \in {0, 1} : OnLine(PairsOf(r.q), Pair(r.c), ProjXs(Len(r.q), r.s, k0), r.S))
+Ray2DCount(r) ==
+    Cl("2d-grid-projected-on-as-many-points-as-pixel-scales-fit-the-longest-path-to-the-edge",
+       /\ r.s > 0 /\ r.s % 2 = 0 /\ Len(r.c) = 2
+       /\ \E k0 \in {0, 1} : CountOk(Len(r.q), k0, r.h, r.w, r.s, << r.oy, r.ox >>, Pair(r.c), r.dyadic)
+       /\ Len(r.out) = 1 /\ Len(r.out[1]) = Len(r.q))
 Ray2DDirection(r) ==
     Cl("2d-grid-projected-along-the-documented-direction",
        /\ r.s > 0 /\ r.S > 0 /\ IsPairSeq(r.q) /\ Len(r.c) = 2 /\ Len(r.q) >= 1 /\ DirOk(r)
@@ -174,13 +188,23 @@ RelocCentre(r) ==
 RelocTiny(r) ==
     Cl("coordinate-a-hair-from-the-centre-moved-along-its-ray-to-exactly-the-minimum",
        RelocGuard(r) /\ \A k \in TinyIdx(r) : TinyToMinimum(Pair(r.pt[k]), Pair(r.q[k]), r.R, r.S))
-RelocClauses(r) == << RelocShape(r), RelocFar(r), RelocNear(r), RelocCentre(r), RelocTiny(r) >>
+\* the minimum the call is judged with is the one configured when the call was made
+RelocConfigured(r) ==
+    Cl("radial-minimum-is-the-one-configured-at-the-time-of-the-call",
+       /\ r.prof \in {"VProfile", "VProfileSmall"} /\ r.m >= 1
+       /\ \A j \in DOMAIN r.confs : r.confs[j] \in 1 .. 3
+       /\ r.R = r.m * ConfMin(InForce(r.confs), r.prof))
+RelocClauses(r) == << RelocConfigured(r), RelocShape(r), RelocFar(r), RelocNear(r), RelocCentre(r), RelocTiny(r) >>
+ReconfigureClauses(r) ==
+    << Cl("configuration-in-force-is-the-one-pushed",
+          r.conf \in 1 .. 3 /\ r.seen = << ConfMin(r.conf, "VProfile"), ConfMin(r.conf, "VProfileSmall") >>) >>
 
 TransformClause(r) == Cl("frame-changed-exactly-once-unless-caller-did", r.tcount = TransformsMeant(r.flag))
 
 \* ---- per call --------------------------------------------------------------------
 Clauses(r) ==
     IF r.api = "derive" THEN (IF r.raised THEN << Cl("call-returns", FALSE) >> ELSE DeriveClauses(r))
+    ELSE IF r.api = "reconfigure" THEN (IF r.raised THEN << Cl("call-returns", FALSE) >> ELSE ReconfigureClauses(r))
     ELSE IF ~ (InDomain(r.api, r.gk, r.rk) /\ r.cls \in ClassesOf(r.gk)) THEN << Cl("call-in-domain", FALSE) >>
     ELSE IF r.raised THEN << Cl("call-returns", FALSE) >>
     ELSE << GridUnchanged(r) >> \o
@@ -193,7 +217,7 @@ Clauses(r) ==
       [] r.api = "project" /\ r.gk = "g1d" ->
            WrapCommon(r) \o << Line1DClause(r), Line1DDirection(r) >>
       [] r.api = "project" /\ r.gk = "g2d" ->
-           WrapCommon(r) \o << Ray2DClause(r), Ray2DDirection(r) >>
+           WrapCommon(r) \o << Ray2DClause(r), Ray2DCount(r), Ray2DDirection(r) >>
       [] r.api = "transform" ->
            << CalledOnce(r), TransformClause(r), ReceivedInput(r) >>
       [] r.api = "reloc" ->
@@ -211,10 +235,12 @@ Sig(r) ==
     IF FailedNames(r) = {"coordinate-at-the-centre-moved-to-exactly-the-minimum"} THEN "PointAtCentre"
     ELSE IF FailedNames(r) = {"coordinate-a-hair-from-the-centre-moved-along-its-ray-to-exactly-the-minimum"} THEN "PointNearCentre"
     ELSE IF FailedNames(r) = {"input-grid-unchanged"} THEN "InputGridOverwritten"
+    ELSE IF "radial-minimum-is-the-one-configured-at-the-time-of-the-call" \in FailedNames(r) THEN "StaleConfiguration"
     ELSE r.api \o "/" \o r.gk \o (IF r.cls = "base" THEN "" ELSE ":" \o r.cls)
 
 Want(r) ==
-    IF r.api = "derive" THEN (IF r.raised \/ ~ OpsOk(r) THEN << >>
+    IF r.api = "reconfigure" THEN << >>
+    ELSE IF r.api = "derive" THEN (IF r.raised \/ ~ OpsOk(r) THEN << >>
                               ELSE [coordinates |-> IF r.gk = "g1d" THEN Cur1D(r) ELSE Cur2D(r)])
     ELSE IF ~ InDomain(r.api, r.gk, r.rk) \/ r.raised THEN << >>
     ELSE IF r.api \in {"reloc", "stack_array", "stack_grid"} /\ RelocGuard(r)
@@ -226,7 +252,7 @@ Want(r) ==
     ELSE [kind |-> ContainerKind(r.api, r.gk, r.rk), elements |-> Elements(r.lst), entries |-> r.rid]
 
 TraceInit == /\ i = 1
-             /\ inst = << >> /\ phase = "trace" /\ obs = << >> /\ grid = << >> /\ hist = << >>
+             /\ inst = << >> /\ phase = "trace" /\ obs = << >> /\ grid = << >> /\ hist = << >> /\ cfg = 1
 
 TraceNext ==
     /\ i <= Len(Trace)
